@@ -66,6 +66,118 @@ def enclosing_stmt(par, node):
     return node
 
 
+def pending_rule(ctx, rule, fi, accs, cfg=None):
+    """R3 for one function: no path from a pending accumulator to a return /
+    construct() that avoids a raising consumer."""
+    fn = fi.node
+    if accs:
+        if cfg is None:
+            cfg = CFG(fn, exc_edges=True)
+        for acc in sorted(accs):
+            pend_nodes = []
+            for nd in cfg.nodes:
+                a = nd.ast
+                if nd.kind != "stmt" or not isinstance(a, (ast.Assign, ast.AnnAssign)):
+                    continue
+                tg = a.targets[0] if isinstance(a, ast.Assign) else a.target
+                if isinstance(tg, ast.Name) and tg.id == acc and a.value is not None:
+                    v = a.value
+                    empty = (isinstance(v, ast.Constant) and v.value is None) or (isinstance(v, (ast.Dict, ast.List)) and not getattr(v, "keys", getattr(v, "elts", None)))
+                    if not empty:
+                        pend_nodes.append(nd)
+            if not pend_nodes:
+                continue
+
+            def consumer(nd, acc=acc):
+                a = nd.ast
+                if a is None or nd.kind not in ("stmt",):
+                    return False
+                for x in ast.walk(a):
+                    if isinstance(x, ast.Call) and (dotted(x.func) or "").endswith("validate_constraints") and len(x.args) >= 3 and acc in names_in(x.args[2]):
+                        return True
+                    if isinstance(a, ast.Raise) and acc in names_in(a):
+                        return True
+                return False
+
+            def bad_target(nd):
+                a = nd.ast
+                if nd.kind == "stmt" and isinstance(a, ast.Return):
+                    return True
+                if nd.kind == "stmt" and a is not None and not isinstance(a, ast.Raise):
+                    for x in ast.walk(a):
+                        if isinstance(x, ast.Call) and isinstance(x.func, ast.Attribute) and x.func.attr == "construct":
+                            return True
+                return False
+
+            def pending_value(t, acc=acc):
+                """truth value of a test while `acc` is pending (non-empty), None if unknown"""
+                if isinstance(t, ast.Name) and t.id == acc:
+                    return True
+                if isinstance(t, ast.Compare) and len(t.ops) == 1 and isinstance(t.left, ast.Name) and t.left.id == acc and isinstance(t.comparators[0], ast.Constant) and t.comparators[0].value is None:
+                    if isinstance(t.ops[0], ast.IsNot):
+                        return True
+                    if isinstance(t.ops[0], ast.Is):
+                        return False
+                if isinstance(t, ast.UnaryOp) and isinstance(t.op, ast.Not):
+                    v = pending_value(t.operand)
+                    return None if v is None else (not v)
+                if isinstance(t, ast.BoolOp):
+                    vals = [pending_value(v) for v in t.values]
+                    if isinstance(t.op, ast.Or):
+                        if any(v is True for v in vals):
+                            return True
+                        if all(v is False for v in vals):
+                            return False
+                    else:
+                        if any(v is False for v in vals):
+                            return False
+                        if all(v is True for v in vals):
+                            return True
+                return None
+
+            def infeasible(nd, lab):
+                if nd.kind != "test":
+                    return False
+                v = pending_value(nd.ast)
+                return (v is True and lab == "false") or (v is False and lab == "true")
+
+            for pn in pend_nodes:
+                construct = f"{fi.qualname}:{acc}"
+                prev = {pn: None}
+                queue = [pn]
+                bad = None
+                while queue and bad is None:
+                    cur = queue.pop(0)
+                    for s, lab in cur.succs:
+                        if lab == "exc" and cur is not pn:
+                            # an exception leaving here is not a normal exit; handlers of the
+                            # same function are still explored (they may return)
+                            if s.kind != "handler":
+                                continue
+                        if lab == "exc" and cur is pn:
+                            continue
+                        if infeasible(cur, lab):
+                            continue
+                        if s in prev:
+                            continue
+                        prev[s] = cur
+                        if consumer(s):
+                            continue
+                        # re-assignment to a non-pending value kills the state
+                        if bad_target(s):
+                            chain, x = [], s
+                            while x is not None:
+                                chain.append(x)
+                                x = prev[x]
+                            bad = list(reversed(chain))
+                            break
+                        queue.append(s)
+                ctx.check(bad is None, rule, construct, pn.ast,
+                          f"after `{short(pn.ast, 70)}` a path reaches a return / construct() while `{acc}` holds errors, without validate_constraints(..., {acc}) or `if {acc}: raise`",
+                          fi, pn.ast, path=describe_path(bad, 12) if bad else None, detail="every path passes a raising consumer")
+
+
+
 def check(ctx):
     model = ctx.model
     ctx.explanations.append(
@@ -195,111 +307,7 @@ def check(ctx):
                           fi, h, path=describe_path(bad) if bad else None, detail=("recorded on all paths" + (" (opt-out branch present)" if optout else "")))
 
         # ---------------- R3
-        if accs:
-            if cfg is None:
-                cfg = CFG(fn, exc_edges=True)
-            for acc in sorted(accs):
-                pend_nodes = []
-                for nd in cfg.nodes:
-                    a = nd.ast
-                    if nd.kind != "stmt" or not isinstance(a, (ast.Assign, ast.AnnAssign)):
-                        continue
-                    tg = a.targets[0] if isinstance(a, ast.Assign) else a.target
-                    if isinstance(tg, ast.Name) and tg.id == acc and a.value is not None:
-                        v = a.value
-                        empty = (isinstance(v, ast.Constant) and v.value is None) or (isinstance(v, (ast.Dict, ast.List)) and not getattr(v, "keys", getattr(v, "elts", None)))
-                        if not empty:
-                            pend_nodes.append(nd)
-                if not pend_nodes:
-                    continue
-
-                def consumer(nd, acc=acc):
-                    a = nd.ast
-                    if a is None or nd.kind not in ("stmt",):
-                        return False
-                    for x in ast.walk(a):
-                        if isinstance(x, ast.Call) and (dotted(x.func) or "").endswith("validate_constraints") and len(x.args) >= 3 and acc in names_in(x.args[2]):
-                            return True
-                        if isinstance(a, ast.Raise) and acc in names_in(a):
-                            return True
-                    return False
-
-                def bad_target(nd):
-                    a = nd.ast
-                    if nd.kind == "stmt" and isinstance(a, ast.Return):
-                        return True
-                    if nd.kind == "stmt" and a is not None and not isinstance(a, ast.Raise):
-                        for x in ast.walk(a):
-                            if isinstance(x, ast.Call) and isinstance(x.func, ast.Attribute) and x.func.attr == "construct":
-                                return True
-                    return False
-
-                def pending_value(t, acc=acc):
-                    """truth value of a test while `acc` is pending (non-empty), None if unknown"""
-                    if isinstance(t, ast.Name) and t.id == acc:
-                        return True
-                    if isinstance(t, ast.Compare) and len(t.ops) == 1 and isinstance(t.left, ast.Name) and t.left.id == acc and isinstance(t.comparators[0], ast.Constant) and t.comparators[0].value is None:
-                        if isinstance(t.ops[0], ast.IsNot):
-                            return True
-                        if isinstance(t.ops[0], ast.Is):
-                            return False
-                    if isinstance(t, ast.UnaryOp) and isinstance(t.op, ast.Not):
-                        v = pending_value(t.operand)
-                        return None if v is None else (not v)
-                    if isinstance(t, ast.BoolOp):
-                        vals = [pending_value(v) for v in t.values]
-                        if isinstance(t.op, ast.Or):
-                            if any(v is True for v in vals):
-                                return True
-                            if all(v is False for v in vals):
-                                return False
-                        else:
-                            if any(v is False for v in vals):
-                                return False
-                            if all(v is True for v in vals):
-                                return True
-                    return None
-
-                def infeasible(nd, lab):
-                    if nd.kind != "test":
-                        return False
-                    v = pending_value(nd.ast)
-                    return (v is True and lab == "false") or (v is False and lab == "true")
-
-                for pn in pend_nodes:
-                    construct = f"{fi.qualname}:{acc}"
-                    prev = {pn: None}
-                    queue = [pn]
-                    bad = None
-                    while queue and bad is None:
-                        cur = queue.pop(0)
-                        for s, lab in cur.succs:
-                            if lab == "exc" and cur is not pn:
-                                # an exception leaving here is not a normal exit; handlers of the
-                                # same function are still explored (they may return)
-                                if s.kind != "handler":
-                                    continue
-                            if lab == "exc" and cur is pn:
-                                continue
-                            if infeasible(cur, lab):
-                                continue
-                            if s in prev:
-                                continue
-                            prev[s] = cur
-                            if consumer(s):
-                                continue
-                            # re-assignment to a non-pending value kills the state
-                            if bad_target(s):
-                                chain, x = [], s
-                                while x is not None:
-                                    chain.append(x)
-                                    x = prev[x]
-                                bad = list(reversed(chain))
-                                break
-                            queue.append(s)
-                    ctx.check(bad is None, "C02.R3", construct, pn.ast,
-                              f"after `{short(pn.ast, 70)}` a path reaches a return / construct() while `{acc}` holds errors, without validate_constraints(..., {acc}) or `if {acc}: raise`",
-                              fi, pn.ast, path=describe_path(bad, 12) if bad else None, detail="every path passes a raising consumer")
+        pending_rule(ctx, "C02.R3", fi, accs, cfg)
 
         # ---------------- R4
         for c in calls:
